@@ -213,16 +213,47 @@ Section WithBody.
 
   Record outcome := { o_fs : fs; o_events : list event; o_result : result (list (str * val)) }.
 
+  (* _submit_generation on the sequential path (pipefunc commit "keep the results that completed before a function
+     raised during map"): the functions of a generation run in order; when one raises, the functions that ran before
+     it are post-processed (_process_generation: their single outputs are written, their elements reach the
+     DictArrays) before the exception propagates, and the elements of the failing function that were computed before
+     the failing one are dumped by _keep_completed_elements.  An exception raised by that post-processing replaces
+     the original one. *)
+  Fixpoint submit_gen_track (c : ctx) (ps : pstate) (ts : list task) (gen : list mfunc) : res (pstate * list task) :=
+    match gen with
+    | [] => ROk (ps, ts)
+    | f :: rest =>
+        match submit_func body c None ps f with
+        | ROk r => submit_gen_track c (fst r) (ts ++ [snd r]) rest
+        | RErr e tr =>
+            match fold_left (fun acc t => rdo ps' <- acc; process_task ps' t) ts
+                            (ROk {| p_store := p_store ps; p_out := p_out ps; p_tr := tr |}) with
+            | ROk ps' => RErr e (p_tr ps')
+            | RErr e' tr' => RErr e' tr'
+            end
+        end
+    end.
+
+  (* _run_and_process_generation; the flag tells whether the failure happened while submitting (then every element
+     computed so far has reached its storage, also a DictArray) *)
+  Definition run_generation_track (c : ctx) (ps : pstate) (gen : list mfunc) : res pstate * bool :=
+    match submit_gen_track c ps [] gen with
+    | RErr e tr => (RErr e tr, true)
+    | ROk r => (fold_left (fun acc t => rdo ps' <- acc; process_task ps' t) (snd r) (ROk (fst r)), false)
+    end.
+
   (* the generations of run_map, keeping what the memory-based storages hold when a generation fails:
-     a DictArray receives its elements in _process_task, so the elements computed by the failing generation's
-     submit phase are not in it (a failure inside the process phase is approximated by "all of them are") *)
-  Fixpoint run_gens_track (c : ctx) (gens : list (list mfunc)) (ps : pstate) : res pstate * rstore :=
+     None = every element dumped so far (failure while submitting, see above); Some rs = the store rs: a DictArray
+     receives its elements in _process_task, and a failure inside the process phase of a complete generation is
+     approximated by "none of this generation's elements are in it" (no such failure is generated by the harness) *)
+  Fixpoint run_gens_track (c : ctx) (gens : list (list mfunc)) (ps : pstate) : res pstate * option rstore :=
     match gens with
-    | [] => (ROk ps, p_store ps)
+    | [] => (ROk ps, Some (p_store ps))
     | gen :: rest =>
-        match run_generation body c None ps gen with
-        | ROk ps' => run_gens_track c rest ps'
-        | RErr e tr => (RErr e tr, p_store ps)
+        match run_generation_track c ps gen with
+        | (ROk ps', _) => run_gens_track c rest ps'
+        | (RErr e tr, true) => (RErr e tr, None)
+        | (RErr e tr, false) => (RErr e tr, Some (p_store ps))
         end
     end.
 
@@ -248,7 +279,10 @@ Section WithBody.
                 | (RErr e tr, rs_fail) =>
                     (* run_map's `finally`: the memory-based storages are persisted also when the run fails;
                        a shared_memory_dict already holds every element dumped so far *)
-                    let held := match st with ShmSt => replay_dumps c tr rs | _ => rs_fail end in
+                    let held := match st, rs_fail with
+                                | ShmSt, _ | _, None => replay_dumps c tr rs
+                                | _, Some r => r
+                                end in
                     fail (persist_all v st c held (fold_left (action_events v st) tr x3)) e
                 | (ROk ps, _) =>
                     let x4 := fold_left (action_events v st) (p_tr ps) x3 in
